@@ -466,7 +466,9 @@ impl Storage for MemStorage {
             return Err(Error::Store(StorageError::LogTemporarilyUnavailable));
         }
 
-        let offset = core.entries[0].index;
+        // `first_index()` rather than `entries[0].index`: an empty range may be
+        // requested while no entries are stored.
+        let offset = core.first_index();
         let lo = (low - offset) as usize;
         let hi = (high - offset) as usize;
         let mut ents = core.entries[lo..hi].to_vec();
